@@ -302,6 +302,32 @@ def oracle(ctx):
                                   {'src': c['src'], 'config': sorted(c['kw']), 'compiled_before': [x['src'] for x in order[:order.index(c)]]},
                                   expected=c['want'], actual=got)
             nt += 1
+    # what an earlier render saw of one object must not decide what a later render shows of another object of the same class:
+    # `obj.name` is the attribute when the object has one, the item otherwise - per object, in any order of renders
+    class Row:
+        def __init__(self, items, **attrs):
+            self._items = items
+            self.__dict__.update(attrs)
+
+        def __getitem__(self, k):
+            return self._items[k]
+    ROWS = {'stored': lambda: Row({'title': 'stored'}), 'edited': lambda: Row({'title': 'stale'}, title='edited'),
+            'attr-only': lambda: Row({}, title='plain'), 'mapping': lambda: {'title': 'dict'}}
+    SHOWS = {'stored': 'stored', 'edited': 'edited', 'attr-only': 'plain', 'mapping': 'dict'}
+    trow = PageTemplate('<p tal:repeat="r rows">${r.title}</p>')
+    for order in (['stored', 'edited'], ['edited', 'stored', 'edited'], ['mapping', 'stored', 'attr-only', 'edited'], ['attr-only', 'edited', 'stored', 'edited']):
+        for i, name in enumerate(order):
+            ctx.count('evaluations')
+            for t in (trow, PageTemplate('<p tal:repeat="r rows">${r.title}</p>')):
+                try:
+                    got = t(rows=[ROWS[name]()])
+                except Exception as e:
+                    got = 'raised %s: %s' % (type(e).__name__, str(e).split('\n')[0][:80])
+                if got != '<p>%s</p>' % SHOWS[name]:
+                    ctx.violation('attribute access on an object depends on which objects of its class earlier renders saw',
+                                  {'src': '<p tal:repeat="r rows">${r.title}</p>', 'row': name, 'rendered_before': order[:i]},
+                                  expected='<p>%s</p>' % SHOWS[name], actual=got)
+        nt += 1
     # render-time engine arguments (translate=, target_language=, encoding=): a call must behave like the first call of a fresh instance
     nt += render_args_sequences(ctx)
     # fresh processes, different hash seeds
